@@ -168,6 +168,12 @@ func ruleEarlyExitInventory(c *Ctx, r *Report, clause string, floor int, pkgPref
 		}
 		r.add(clause, "early-exit", s.Key, desc, []string{s.Fn}, []string{w.pos(s.Pos.Pos())}, viol)
 	}
+	if floor <= 5 {
+		floor = 0
+		if len(w.funcsOfPkgPrefixes(pkgPrefixes...)) == 0 {
+			floor = 1
+		}
+	}
 	if n < floor {
 		r.undecided(clause, "early-exit", "coverage:"+strings.Join(pkgPrefixes, ","), "", fmt.Sprintf("only %d early exits found in %v (floor %d)", n, pkgPrefixes, floor))
 	}
